@@ -1,7 +1,7 @@
 from props import LEAN_TB, CORR_TB, TRANS_TB
 
 PROP = dict(
-    lean=["Tcell.Props.C11"], namespaces=["Tcell.Props.C11"], engines=["text"],
+    lean=["Tcell.Props.C11"], namespaces=["Tcell.Props.C11"], engines=["text", "pipepaste"],
     trusted_base=[LEAN_TB, CORR_TB, TRANS_TB,
                   "hand-written model of the input parser (lean/Tcell/Model/Parser.lean, tscreen.go:1295-1812) and of the read loop (`feedAll`, Model/TextInput.lean, tscreen.go:1890), tied to the code by the `text` engine through tcell.VerifParser.Feed",
                   "`decUtf8` models x/text UTF8Validator + utf8.DecodeRune (proved to obey the codec laws); `decTable`/`decMulti` model the charmap and multi-byte decoders of golang.org/x/text: the codec laws they are proved to obey are validated exhaustively on the real decoders through the real parser by the `text law` lines",
